@@ -48,6 +48,17 @@ fn check_one(f: &[&str]) -> Result<(), String> {
         || msk.serialize().unwrap().len() != msk.length() || hdr.serialize().unwrap().len() != hdr.length() { return Err("length() mismatch".into()); }
     // objects that did not change format must re-serialize byte for byte
     if hex(&enc.serialize().unwrap()) != f[3] || hex(&hdr.serialize().unwrap()) != f[6] { return Err("re-serialization differs".into()); }
+    // an object read from pinned-release bytes must itself round-trip (serialize -> deserialize -> equal object; the byte order of hash maps is not fixed)
+    {
+        let b2 = msk.serialize().map_err(|e| format!("msk re-serialize: {e}"))?;
+        let m2 = MasterSecretKey::deserialize(&b2).map_err(|e| format!("msk written after reading pinned-release bytes does not deserialize: {e}"))?;
+        if m2 != msk { return Err(format!("msk read from pinned-release bytes does not round-trip: objects differ: st {} tsk/secrets {}", m2.access_structure == msk.access_structure, dump_msk(&m2) == dump_msk(&msk))); }
+        let p2 = mpk.serialize().map_err(|e| format!("mpk re-serialize: {e}"))?;
+        let q2 = MasterPublicKey::deserialize(&p2).map_err(|e| format!("mpk written after reading pinned-release bytes does not deserialize: {e}"))?;
+        if q2 != mpk { return Err("mpk read from pinned-release bytes does not round-trip".into()); }
+        let u2 = usk.serialize().unwrap();
+        if UserSecretKey::deserialize(&u2).map_err(|e| format!("usk: {e}"))? != usk { return Err("usk read from pinned-release bytes does not round-trip".into()); }
+    }
     let opens = f[5] == "1";
     match cc.decaps(&usk, &enc).map_err(|e| format!("decaps: {e}"))? {
         Some(s) => { if !opens || hex(&*s) != f[4] { return Err("decaps: wrong secret".into()); } }
@@ -74,6 +85,12 @@ fn check_one(f: &[&str]) -> Result<(), String> {
     let mut s = ids.clone(); s.sort(); s.dedup();
     if s.len() != ids.len() { return Err(format!("duplicate attribute ids after adding to a legacy structure: {ids:?}")); }
     let _ = (s2, e2);
+    // ... and still does after having been used and edited
+    let b3 = msk.serialize().map_err(|e| format!("msk re-serialize: {e}"))?;
+    let m3 = MasterSecretKey::deserialize(&b3).map_err(|e| format!("edited legacy msk does not deserialize: {e}"))?;
+    if m3 != msk { return Err("edited legacy msk does not round-trip".into()); }
+    let p3 = mpk2.serialize().unwrap();
+    if MasterPublicKey::deserialize(&p3).map_err(|e| format!("mpk of a legacy msk does not deserialize: {e}"))? != mpk2 { return Err("mpk of a legacy msk does not round-trip".into()); }
     Ok(())
 }
 
